@@ -22,6 +22,10 @@ CRIT = ['', 'x', 'x y', '=', 'a=b', 'b=1', 'k=v w', '"', '"x"', '"x y"', "'q'", 
         ' x', 'x ', '5']
 CRIT_SMALL = ['', 'x y', 'b=1', '"x"', 'OK', '250 OK', '.', 'a=b']
 ML_LINES = ['x', '.', '..', '.x', '...', '.a..b', ' .', 'k=v', 'a=v', '250 OK', 'OK', '', 'x y']
+# replies mixing single-line keys and data blocks; no block line starts with "<a requested key>=" (that reading is
+# ambiguous once the reply is joined, see the line-repeats-key finding)
+MIX_SINGLE = ['x', 'k=v w', '']
+MIX_BLOCKS = [('x',), ('x=y', 'z'), ('id=',), ('', 'w Bandwidth=12'), ('q', 'zz=1 2', '.')]
 CONF_VALUES = ['', 'x', 'a b', 'k=v', '"q"', 'OK', '250 OK', 'Opt=1', '0']
 
 
@@ -180,6 +184,10 @@ def tasks(tier, seed):
         out.append(('multi', ks))
     for first in ML_LINES:
         out.append(('ml', first))
+    for ks in itertools.permutations(KEYS, 2):
+        out.append(('mixed', ks))
+    for ks in list(itertools.permutations(KEYS, 3))[:(6 if tier == 'quick' else 24)]:
+        out.append(('mixed', ks))
     out.append(('conf',))
     out.append(('keynames',))
     return out
@@ -302,6 +310,18 @@ def run_task(param, acc):
                     rec(acc, ('ml', lines, single), oc, viol, dict(kind='info', keys=[key], values=[list(lines)], single=single, ml=True),
                         cost=50 * len(lines) + sum(len(x) for x in lines))
         acc.sample(dict(call='get_info', keys=[key], multiline_value=list(lines)), limit=1)
+    elif param[0] == 'mixed':
+        # several keys, at least one answered with a data block (before, between or after single-line keys)
+        ks = param[1]
+        for values in itertools.product(MIX_SINGLE + MIX_BLOCKS, repeat=len(ks)):
+            if not any(isinstance(v, tuple) for v in values):
+                continue
+            p = dict(kind='info', keys=list(ks), values=[list(v) if isinstance(v, tuple) else v for v in values], single=False, pre=None, mixed=True)
+            viol = run_params(p)
+            oc = _LAST_OC[0]
+            rec(acc, ('mixed', ks, values), oc, viol, p,
+                cost=100 * len(ks) + sum(len(v) if isinstance(v, str) else 20 * len(v) + sum(map(len, v)) for v in values))
+        acc.sample(dict(call='get_info', keys=list(ks), values=[list(v) if isinstance(v, tuple) else v for v in values]), limit=1)
     elif param[0] == 'keynames':
         for k in ODD_KEYS:
             for ks in ((k,), (k, 'a'), ('a', k), (k, ODD_KEYS[(ODD_KEYS.index(k) + 1) % len(ODD_KEYS)])):
